@@ -17,7 +17,7 @@ LEVEL = 'other'
 TECHNIQUE = 'jaxpr-level symbolic execution on arrays of distinct atoms + z3 against numpy.moveaxis / flatten / reshape; legality compared one-sidedly with NumPy'
 EXPLANATION = ('x is an array of distinct atoms, so equality of results is equality of relabellings. For every legal argument of a '
                'bounded family the operator, its transpose (T(mv x) = x, mv(T y) = y), reduce() (Identity only if all leaf shapes '
-               'are unchanged, and then the identity map) and the inverse-pair rules are traced and decided; arguments NumPy '
+               'are unchanged, and then the identity map), the inverse-pair rules (an operator with its own transpose, and with the transpose of ANOTHER reshape of the same input, which must not cancel) are traced and decided; arguments NumPy '
                'rejects must be rejected at construction.')
 FUNCTIONS = ['MoveAxisOperator.__init__/mv/transpose/inverse', 'MoveAxisInverseRule', 'RavelOperator.__init__/mv', 'ReshapeOperator.__init__/_check_shape/_normalize_shape/mv',
              'ReshapeTransposeOperator.mv', 'AbstractRavelOrReshapeOperator.transpose/reduce/as_matrix', 'ReshapeInverseRule']
@@ -212,6 +212,27 @@ def run_case(key, twin=False):
     d2, _, _ = E.run(ctx, lambda y: (lambda o: (o @ o.T).reduce().mv(y))(mk()), [('y', outs, 'sym')])
     res.append(('rule T@op', dec.decide(ctx, pairs(d1, x, ctx))))
     res.append(('rule op@T', dec.decide(ctx, pairs(d2, y, ctx))))
+    if kind in ('ravel', 'reshape'):
+        # the inverse-pair rule must only cancel an operator with ITS OWN transpose: A @ B.T for another reshape B of the same input
+        from furax import ReshapeOperator
+        for pname, target in (('flat', (-1,)), ('row', (1, -1))):
+            def mkb(target=target):
+                return ReshapeOperator(target, in_structure=ins)
+            try:
+                bouts = mkb().out_structure()
+            except ValueError:
+                continue
+            if structs_equal(bouts, outs):
+                continue
+            comp0 = (op0 @ mkb().T).reduce()
+            if not structs_equal(comp0.in_structure(), bouts) or not structs_equal(comp0.out_structure(), outs):
+                return violation(f'({kind}{key[2:]} @ reshape{target}.T).reduce() on {shapes} maps {describe_struct(comp0.in_structure())} -> '
+                                 f'{describe_struct(comp0.out_structure())}, expected {describe_struct(bouts)} -> {describe_struct(outs)}',
+                                 signature=f'c13-foreign-pair-struct:{key}:{pname}', kind='struct')
+            yb = [('yb', bouts, 'sym')]
+            f1, _, _ = E.run(ctx, lambda yb, mkb=mkb: (mk() @ mkb().T).reduce().mv(yb), yb)
+            f2, _, _ = E.run(ctx, lambda yb, mkb=mkb: mk().mv(mkb().T.mv(yb)), yb)
+            res.append((f'foreign pair {pname}', dec.decide(ctx, pairs(f1, f2, ctx))))
     if kind == 'move':
         d3, _, _ = E.run(ctx, lambda x: (lambda o: (o.I @ o).reduce().mv(x))(mk()), [('x', ins, 'sym')])
         res.append(('rule I@op', dec.decide(ctx, pairs(d3, x, ctx))))
@@ -294,6 +315,12 @@ def replay(key, model, info):
         close, msg = trees_close((op @ op.T).reduce().mv(y), y)
     elif kind == 'rule I@op':
         close, msg = trees_close((op.I @ op).reduce().mv(x), x)
+    elif kind and kind.startswith('foreign pair'):
+        from furax import ReshapeOperator
+        target = (-1,) if kind.endswith('flat') else (1, -1)
+        b = ReshapeOperator(target, in_structure=ins)
+        yb = model_tree(model, 'yb', b.out_structure())
+        close, msg = trees_close((op @ b.T).reduce().mv(yb), op.mv(b.T.mv(yb)))
     elif kind == 'differently paired move':
         from furax import MoveAxisOperator
         o2 = MoveAxisOperator(tuple(key[3]), tuple(key[2][1:] + key[2][:1]), in_structure=op.out_structure())
